@@ -17,5 +17,30 @@ CLAIMED = {
   "technique": "machine-checked proof in Coq (membership iff-theorems for effect gate, principal enumeration, whitelist) + generated Principal field table + differential correspondence",
   "text": "25 theorems over the policy model: Effect accepted iff Allow/Deny in any case and stored canonically; principals(st) = exactly the principals named by Principal/NotPrincipal in every shape; non-whitelisted iff string principal not in the whitelist; the three document queries see exactly the Allow statements (parametric in the expansion function); Deny statements are invisible; order-blindness. The Principal field order is regenerated from the live class and re-proved each run. Tied to /repo through 11 public-API surfaces on generated documents.",
   "note": COMMON_NOTE + "Pattern arguments restricted to globs built by regex_from_cf_string and escaped literal prefixes; get_allowed_actions compared for string Action patterns (expansion itself is C09). ASCII capitalize (checked exact for this validator each run).",
+ },,
+ "C01": {
+  "technique": "machine-checked proof in Coq (executable resolver = declarative big-step semantics, Fn::Sub tokenisation/substitution theorems) + regenerated function table + differential correspondence",
+  "text": "resolve (one structurally recursive Gallina function over JSON values, all 16 function keys) is proved sound AND complete w.r.t. an inductive big-step relation Eval with one rule per construct (hence deterministic, any nesting depth, any position in lists/objects); Fn::Sub: tokenisation is a partition of the text, the result is the concatenation of each token rendered exactly once, inserted text is never rescanned, ${!x} -> ${x}, local map first then parameters, unbound kept; undefined Ref/ImportValue/FindInMap/out-of-range or negative Select give the placeholder values. Function-name -> resolver table, NoValue marker and the placeholder/SSM regex texts are regenerated from the live source and re-proved equal to what the model dispatches on. Tied to /repo by resolver.resolve(...) and parse(t).resolve(extra) on generated expressions/templates.",
+  "note": COMMON_NOTE + "Leaves: pydantic re-validation after resolve (shared by both sides of the end-to-end surface), Python's \\w for a fixed non-ASCII table, str() of typed atoms (carried as text). Ill-typed arguments are EUndefined (counted, not compared). Mapping leaves other than strings/lists of strings: known finding F14b stream.",
+ },
+ "C02": {
+  "technique": "machine-checked proof in Coq (order-independence and fuel-independence of on-demand condition values, truth tables, gating, NoValue pruning) + differential correspondence over all declaration orders",
+  "text": "cond_val (depth-first evaluation with the set of names not in progress) is proved to depend on the declarations only through lookups (hence invariant under every permutation of the Conditions section), to be independent of fuel above the number of declared names, to give false for in-progress (cyclic) and undeclared references, and to satisfy its defining equation; And = all / Or = any / Not / Equals-on-renderings, Fn::If selects one branch, resources are present iff their gate is open, AWS::NoValue members are pruned from lists and objects. Tied to /repo by parse(t).resolve(extra) on generated condition graphs, every declaration order for <= 5 conditions.",
+  "note": COMMON_NOTE + "The implementation's taint-aware cache is not modelled (cond_val is the specification); its agreement on cyclic graphs rests on the correspondence. pydantic's lenient bool table is a leaf checked each run.",
+ },
+ "C11": {
+  "technique": "machine-checked proof in Coq (27 operator comparisons, negation duality, width-generic network containment) + regenerated operator table + differential correspondence",
+  "text": "op_test is proved to be the documented comparison for every base operator on operands of its family (equality, strict/inclusive order on Z, fold-equality for IgnoreCase for any fold, glob_spec for Like, subnet_of = inclusion of address sets for IpAddress, identity for Bool, presence for Null) and every negated operator is proved the exact dual of its positive counterpart. The operator table (159 fields: name, qualifier, IfExists, base operator, value family) is regenerated from the live StatementCondition class and Operators_complete is re-proved each run. Tied to /repo by StatementCondition(...)(ctx) and .eval(ctx) on boundary-biased operand pairs.",
+  "note": COMMON_NOTE + "Policy-side parsing (pydantic) and casefold+NFKD are leaves: the harness reads the typed policy operand back from the validated model and supplies folded strings. Null follows the pinned tests (key present <=> policy true).",
+ },
+ "C12": {
+  "technique": "machine-checked proof in Coq (short-circuit all/any semantics of condition blocks, key independence, conjunction law) + differential correspondence incl. metamorphic conjunction surface",
+  "text": "eval_block (strip IfExists/ForAllValues/ForAnyValue, per-key groups, Python all/any with exceptions -> None) is proved: true iff the declarative block_sat reading; total (True/False/None, never raises); None only if a required key is missing or a comparison is undefined; the verdict of one key's group is independent of other keys' context values; a block is true iff every single-operator single-key sub-block is; colon spellings normalise. Faithful models of the two repaired defects (late-binding closures, any for negated lists) are kept in Findings/F09F10.v with the laws they refute. Tied to /repo by StatementCondition.model_validate(block)(ctx) and by the conjunction of the implementation's own parts.",
+  "note": COMMON_NOTE + "Leaf test = C11's op_test. BinaryEquals with value lists is kept out of the generator (defect 11, see C15/C19).",
+ },
+ "C17": {
+  "technique": "machine-checked proof in Coq (width-generic network arithmetic, IPv4/IPv6 text grammars, slash-zero iff whole space, is_public characterisation) + regenerated private-network table + differential correspondence",
+  "text": "35 theorems: mk_net masks host bits and denotes exactly the addresses agreeing on the first l bits (any width; equals ipaddress's bitwise mask); parse4 accepts exactly the declarative CIDR grammar (prefix, netmask, hostmask, bare address; no leading zeros) and every spelling of a range parses to the same network; parse4 (print4 n) = Ok n (the through-a-reference clause); parse6 for full/compressed/embedded-IPv4 forms with parse6 (print6_full n) = Ok n; slash_zero true iff every address of the space is in the network (W = 32 and 128); is_public characterised for any table and for the table regenerated from the running Python's ipaddress (whose is_global/is_private source is compared by AST, fail-closed). Tied to /repo through six surfaces on eight resource positions, literal and through Ref, after parse and after resolve.",
+  "note": COMMON_NOTE + "Only RFC 5952 compression in str(IPv6Network) is not modelled (the implementation's text is parsed back by parse6). CIDRs are generated only in typed fields of modelled resources.",
  },
 }
